@@ -111,6 +111,11 @@ type Decoder struct {
 	// saveBuf is previous data passed to Write which we weren't able
 	// to fully parse before. Unlike buf, we own this data.
 	saveBuf bytes.Buffer
+
+	// firstField is true until the first header field representation
+	// of the current header block has been processed (dynamic table
+	// size updates are only allowed before it, RFC 7541 section 4.2).
+	firstField bool
 }
 
 // NewDecoder returns a new decoder with the provided maximum dynamic
@@ -120,6 +125,7 @@ func NewDecoder(maxDynamicTableSize uint32, emitFunc func(f HeaderField) error) 
 	d := &Decoder{
 		emit:        emitFunc,
 		emitEnabled: true,
+		firstField:  true,
 	}
 	d.dynTab.allowedMaxSize = maxDynamicTableSize
 	d.dynTab.setMaxSize(maxDynamicTableSize)
@@ -305,6 +311,7 @@ func (d *Decoder) Close() error {
 		d.saveBuf.Reset()
 		return DecodingError{errors.New("truncated headers")}
 	}
+	d.firstField = true
 	return nil
 }
 
@@ -412,6 +419,7 @@ func (d *Decoder) parseFieldIndexed() error {
 		return DecodingError{InvalidIndexError(idx)}
 	}
 	d.buf = buf
+	d.firstField = false
 	return d.callEmit(HeaderField{Name: hf.Name, Value: hf.Value})
 }
 
@@ -442,6 +450,7 @@ func (d *Decoder) parseFieldLiteral(n uint8, it indexType) error {
 		return err
 	}
 	d.buf = buf
+	d.firstField = false
 	if it.indexed() {
 		d.dynTab.add(hf)
 	}
@@ -464,6 +473,11 @@ func (d *Decoder) callEmit(hf HeaderField) error {
 
 // (same invariants and behavior as parseHeaderFieldRepr)
 func (d *Decoder) parseDynamicTableSizeUpdate() error {
+	// RFC 7541, section 4.2: a dynamic table size update MUST occur at the
+	// beginning of a header block, i.e. before its first header field.
+	if !d.firstField {
+		return DecodingError{errors.New("dynamic table size update MUST occur at the beginning of a header block")}
+	}
 	buf := d.buf
 	size, buf, err := readVarInt(5, buf)
 	if err != nil {
